@@ -1,10 +1,18 @@
 #!/bin/bash
-# usage: tools_refactor_all.sh [glob, e.g. "*3-*"]
+# usage: tools_refactor_all.sh [glob, e.g. "*3-*"] [jobs]
 # dev helper: run every check with --src on every scratch tree /tmp/rf/<G>-<r> (see tools_refactor_trees.sh); prints false alarms
 cd /verif
 PAT=${1:-*}
-for D in /tmp/rf/$PAT; do
-  echo "### $(basename $D)"
-  for p in $(seq -f "C%02g" 1 20); do ./check $p --src $D --no-evidence 2>&1 | grep -E "^VIOLATION|does not build|Traceback|Error" | cut -c1-300 | sed "s/^/$p: /"; done
-done
+JOBS=${2:-6}
+one() {
+  D=$1
+  out="### $(basename $D)"
+  for p in $(seq -f "C%02g" 1 20); do
+    r=$(./check $p --src $D --no-evidence 2>&1 | grep -E "^VIOLATION|does not build|Traceback|Error" | cut -c1-300 | sed "s/^/$p: /")
+    [ -n "$r" ] && out="$out"$'\n'"$r"
+  done
+  echo "$out"
+}
+export -f one
+ls -d /tmp/rf/$PAT | xargs -P $JOBS -I{} bash -c 'one {}'
 echo FINISHED
